@@ -66,14 +66,23 @@ def reader_chain(fn):
 def run(res, tier):
     un = engine.unit(NAME)
     uio = engine.unit(IO)
-    for f in ("_getnumadr", "mj_name2id", "mj_id2name", "mj_hashString"):
+    for f in ("mj_name2id", "mj_id2name", "mj_hashString"):
         if f not in un.funcs:
             raise AnalysisError(f"anchor {f} missing in {NAME}")
+    # the name-table reader is found by its role, not its name: the function that mj_name2id and mj_id2name both call and
+    # that dispatches on the object type (a switch with mjOBJ_* labels)
+    def _objswitch(fn):
+        return any(n.get("k") == "CaseStmt" and cir.text(cir.kids(n)[0]).startswith("mjOBJ_") for n in cir.walk(fn))
+    common = {cir.callee(c) for c in cir.calls(un.funcs["mj_name2id"])} & {cir.callee(c) for c in cir.calls(un.funcs["mj_id2name"])}
+    cands = sorted(n for n in common if n in un.funcs and _objswitch(un.funcs[n]))
+    if len(cands) != 1:
+        raise AnalysisError(f"name-table reader (called by mj_name2id and mj_id2name, switch over mjtObj) not identified: {cands}")
+    GETNUM = cands[0]
     for f in ("mj_makeModel", "numObjects"):
         if f not in uio.funcs:
             raise AnalysisError(f"anchor {f} missing in {IO}")
     rows = {r["name"]: r for r in xmacro.pointers("MJMODEL_POINTERS")}
-    chain = [g for g in reader_chain(un.funcs["_getnumadr"]) if g["labels"] != ["<default>"]]
+    chain = [g for g in reader_chain(un.funcs[GETNUM]) if g["labels"] != ["<default>"]]
     res.rule("R-TABLE-NAME", "reader case: count == subtracted dimension == X-macro row dimension of the address array", floor=20)
     mult = None
     order = []
@@ -137,7 +146,7 @@ def run(res, tier):
             if lab in ("mjOBJ_DOF",):
                 res.ok("R-SIBLING-COUNT", lab, {"unnamed": True})
             else:
-                res.bad("R-SIBLING-COUNT", lab, NAME, un.funcs["_getnumadr"].get("line"),
+                res.bad("R-SIBLING-COUNT", lab, NAME, un.funcs[GETNUM].get("line"),
                         f"object type {lab} has {cnt} objects (numObjects) but no case in _getnumadr: its names cannot be looked up")
         elif "m->" + (g["num"] or "") != cnt:
             res.bad("R-SIBLING-COUNT", lab, NAME, g["line"], f"_getnumadr returns m->{g['num']} for {lab}, numObjects returns {cnt}")
@@ -219,11 +228,17 @@ def run(res, tier):
         msname = ms[0].get("n")
         mstext = cir.text([c for c in cir.kids(ms[0]) if c][-1])
         okk = mstext.startswith(f"{mult} * ") and cir.text(cir.args(hcalls[0])[1]) == msname
-    rd = un.funcs["mj_name2id"]
+    from .. import norm, linform as _lf
+    rd = norm.canon(un, "mj_name2id", exclude=(GETNUM, "mj_hashString"))
+    rbody = cir.body(rd)
     rh = [c for c in cir.calls(rd, "mj_hashString")]
-    rnum = [x for x in cir.walk(rd) if x.get("k") == "VarDecl" and x.get("init") and "_getnumadr" in cir.text([c for c in cir.kids(x) if c][-1])]
-    okr = bool(rh) and bool(rnum) and cir.text([c for c in cir.kids(rnum[0]) if c][-1]).startswith(f"{mult} * _getnumadr") and \
-        cir.text(cir.args(rh[0])[1]) == rnum[0].get("n")
+    rnum = [x for x in cir.walk(rd) if x.get("k") == "VarDecl" and x.get("init") and
+            any(cir.callee(c) == GETNUM for c in cir.calls(x))]
+    okr = False
+    if rh and rnum:
+        f_ = _lf.linform([c for c in cir.kids(rnum[0]) if c][-1], {})
+        okr = len(f_) == 1 and next(iter(f_)).startswith(GETNUM + "(") and str(next(iter(f_.values()))) == str(mult) and \
+            cir.text(cir.args(rh[0])[1]) == rnum[0].get("n")
     if okk and okr:
         res.ok("R-WRITER-ORDER", "hash-modulus", {"modulus": f"{mult} * count"})
     else:
@@ -234,10 +249,38 @@ def run(res, tier):
     wstop = any(cir.text(x).endswith("!= -1") for x in cir.walk(nl) if x.get("k") == "BinaryOperator" and x.get("op") == "!=")
     init_m1 = any(cir.is_call(c) and "memset" in cir.text(cir.kids(c)[0]) and "names_map" in cir.text(cir.args(c)[0]) and cir.text(cir.args(c)[1]) == "-1"
                   for c in cir.walk(wfn))
-    rstop = any(x.get("k") == "IfStmt" and re.fullmatch(r"\w+ < 0", cir.text(cir.kids(x)[0])) and
-                any(y.get("k") == "ReturnStmt" for y in cir.walk(cir.kids(x)[1])) for x in cir.walk(rd))
-    rwrap = any(x.get("k") == "IfStmt" and re.fullmatch(r"\+\+(\w+) == " + re.escape(rnum[0].get("n") if rnum else "?"), cir.text(cir.kids(x)[0]))
-                for x in cir.walk(rd))
+    # reader: a slot value read from names_map that is negative ends the search (a return guarded by slot < 0)
+    slot_vars = {x.get("n") for x in cir.walk(rd) if x.get("k") == "VarDecl" and x.get("init") and
+                 "names_map" in cir.text([c for c in cir.kids(x) if c][-1])}
+    rstop = False
+    for r_ in cir.walk(rbody):
+        if r_.get("k") == "ReturnStmt":
+            for c_, pol in norm.guards(rbody, r_) or ():
+                rel = _lf.relation(c_, pol, {})
+                if rel and any(v in rel[0] and rel[0][v] < 0 for v in slot_vars) and \
+                        all(a_ in slot_vars or a_ == "1" for a_ in rel[0]):
+                    rstop = True
+    # reader: the probe index is advanced once per iteration and reset to 0 when it reaches the segment size
+    idx = [y for y in cir.walk(rd) if y.get("k") == "ArraySubscriptExpr" and "names_map" in cir.text(cir.kids(y)[0])]
+    ivar = None
+    if len(idx) == 1:
+        f_ = _lf.linform(cir.kids(idx[0])[1], {})
+        rest = [a_ for a_ in f_ if a_ != "mapadr"]
+        if f_.get("mapadr") == 1 and len(rest) == 1 and f_[rest[0]] == 1:
+            ivar = rest[0]
+    rwrap = False
+    if ivar and rnum:
+        incs = [x for x in cir.walk(rd) if (x.get("k") == "UnaryOperator" and x.get("op") == "++" and cir.text(cir.kids(x)[0]) == ivar) or
+                (x.get("k") == "CompoundAssignOperator" and cir.text(cir.kids(x)[0]) == ivar)]
+        resets = [x for x in cir.walk(rd) if x.get("k") == "BinaryOperator" and x.get("op") == "=" and cir.text(cir.kids(x)[0]) == ivar
+                  and cir.text(cir.kids(x)[1]) == "0"]
+        n_ = rnum[0].get("n")
+        for x in resets:
+            for c_, pol in norm.guards(rbody, x) or ():
+                if pol and c_.get("k") == "BinaryOperator" and c_.get("op") == "==":
+                    sides = {cir.text(y).replace("++", "") for y in cir.kids(c_)}
+                    if sides == {ivar, n_}:
+                        rwrap = len(incs) == 1
     if wprobe and wstop and init_m1 and rstop and rwrap:
         res.ok("R-WRITER-ORDER", "probing", {"empty": -1})
     else:
@@ -247,23 +290,35 @@ def run(res, tier):
 
     # N5 bounds
     res.rule("R-BOUNDS", "lookups index only inside their tables", floor=2)
-    idf = un.funcs["mj_id2name"]
-    nvar = [x.get("n") for x in cir.walk(idf) if x.get("k") == "VarDecl" and x.get("init") and "_getnumadr" in cir.text([c for c in cir.kids(x) if c][-1])]
-    okb = False
-    for x in cir.walk(idf):
-        if x.get("k") == "IfStmt":
-            c = cir.text(cir.kids(x)[0])
-            if nvar and re.search(r"\bid >= 0 && id < " + re.escape(nvar[0]) + r" && ", c) and "adr[id]" in c.split("&&")[-1]:
-                # every adr[id] must be inside this if (cond tail or then-branch)
-                inside = {id(y) for y in cir.walk(x)}
-                allidx = [y for y in cir.walk(idf) if y.get("k") == "ArraySubscriptExpr" and cir.text(y) == "adr[id]"]
-                okb = all(id(y) in inside for y in allidx) and bool(allidx)
+    idf = norm.canon(un, "mj_id2name", exclude=(GETNUM,))
+    ibody = cir.body(idf)
+    nvar = [x.get("n") for x in cir.walk(idf) if x.get("k") == "VarDecl" and x.get("init") and
+            any(cir.callee(c) == GETNUM for c in cir.calls(x))]
+    # the address array is the local whose address is handed to the reader
+    adrv = set()
+    for c in cir.calls(idf, GETNUM):
+        for a_ in cir.args(c):
+            x = cir.strip(a_)
+            if x is not None and x.get("k") == "UnaryOperator" and x.get("op") == "&" and "*" in ((cir.strip(cir.kids(x)[0]) or {}).get("t") or ""):
+                adrv.add(cir.text(cir.kids(x)[0]))
+    allidx = [y for y in cir.walk(ibody) if y.get("k") == "ArraySubscriptExpr" and cir.text(cir.kids(y)[0]) in adrv]
+    okb = bool(allidx) and bool(nvar)
+
+    def _ints(rel):
+        f_, strict = rel
+        return _lf._add(f_, {"1": 1}, -1) if strict else f_
+    for y in allidx:
+        i_ = cir.text(cir.kids(y)[1])
+        rels = [_ints(r_) for r_ in (_lf.relation(c_, pol, {}) for c_, pol in norm.guards(ibody, y) or ()) if r_]
+        lo = any(f_ == {i_: 1} for f_ in rels)
+        hi = any(f_ == {nvar[0]: 1, i_: -1, "1": -1} for f_ in rels) if nvar else False
+        if not (lo and hi):
+            okb = False
     if okb:
-        res.ok("R-BOUNDS", "mj_id2name", None)
+        res.ok("R-BOUNDS", "mj_id2name", {"subscripts": len(allidx)})
     else:
         res.bad("R-BOUNDS", "mj_id2name", NAME, idf.get("line"), "adr[id] is used outside the test 0 <= id < num (short-circuit order matters)")
-    idx = [y for y in cir.walk(rd) if y.get("k") == "ArraySubscriptExpr" and "names_map" in cir.text(cir.kids(y)[0])]
-    if len(idx) == 1 and re.fullmatch(r"mapadr \+ \w+", cir.text(cir.kids(idx[0])[1])) and rwrap:
+    if ivar and rwrap:
         res.ok("R-BOUNDS", "mj_name2id", None)
     else:
         res.bad("R-BOUNDS", "mj_name2id", NAME, rd.get("line"), "names_map is not indexed as mapadr + i with i wrapped at the segment size")
